@@ -55,6 +55,14 @@ PrimType(fam, ts) ==
 Ctx(G, ret, loop, yl) == [G |-> G, ret |-> ret, loop |-> loop, yl |-> yl, cat |-> 0, pcat |-> 0]
 BindV(C, x, t, asg) == [C EXCEPT !.G = (x :> [t |-> t, asg |-> asg]) @@ C.G]
 
+(* the value types an exception carries: <<>> for a plain one *)
+ExnPayload(P, ex) ==
+  IF "exnp" \notin DOMAIN P THEN <<>>
+  ELSE LET m == {i \in 1..Len(P.exnp) : P.exnp[i].exn = ex} IN
+       IF m = {} THEN <<>> ELSE <<P.exnp[CHOOSE i \in m : TRUE].t>>
+BindPs(C, ps, ts) == [C EXCEPT !.G = [n \in {ps[i] : i \in 1..Len(ps)} |->
+                                       [t |-> ts[CHOOSE i \in 1..Len(ps) : ps[i] = n], asg |-> FALSE]] @@ C.G]
+
 AllFit(ts, want) == Len(ts) = Len(want) /\ \A i \in 1..Len(ts) : Fits(ts[i], want[i])
 
 FindOp(seq, name) == LET m == {i \in 1..Len(seq) : seq[i].name = name} IN IF m = {} THEN 0 ELSE CHOOSE i \in m : TRUE
@@ -178,11 +186,17 @@ TypeOf(x, C, P) ==
               \* arguments that are used are typed (an ill-typed argument makes every use of its parameter ill typed)
               IN TypeOf(m.body, Ctx(Gm, ERR, FALSE, ERR), P)
          ELSE ERR
-    [] e = "throw" -> IF \E i \in 1..Len(P.exns) : P.exns[i] = x.exn THEN ANY ELSE ERR
+    \* an exception is thrown with exactly the values its declaration carries (P.exnp: the exceptions with a payload)
+    [] e = "throw" -> IF (\E i \in 1..Len(P.exns) : P.exns[i] = x.exn) /\ AllFit(TypesOf(x.args, C, P), ExnPayload(P, x.exn))
+                      THEN ANY ELSE ERR
+    \* a handler sees the carried values as constants named by its parameters
     [] e = "try" ->
          IF Fits(TypeOf(x.body, [C EXCEPT !.loop = FALSE, !.ret = ERR], P), x.t)
             /\ (\A i \in 1..Len(x.hs) : (\E j \in 1..Len(P.exns) : P.exns[j] = x.hs[i].exn)
-                                          /\ Fits(TypeOf(x.hs[i].body, [C EXCEPT !.loop = FALSE, !.ret = ERR], P), x.t))
+                    /\ Len(x.hs[i].ps) \in {0, Len(ExnPayload(P, x.hs[i].exn))}      \* a handler may ignore the carried value
+                    /\ Fits(TypeOf(x.hs[i].body,
+                                   IF x.hs[i].ps = <<>> THEN [C EXCEPT !.loop = FALSE, !.ret = ERR]
+                                   ELSE BindPs([C EXCEPT !.loop = FALSE, !.ret = ERR], x.hs[i].ps, ExnPayload(P, x.hs[i].exn)), P), x.t))
             /\ (x.fin.e = "none" \/ Ok(TypeOf(x.fin, [C EXCEPT !.loop = FALSE, !.ret = ERR], P)))
          THEN x.t ELSE ERR
     [] OTHER -> ERR
